@@ -152,7 +152,7 @@ def build(ctx):
                     # symbolic geometry: one solver query per arm (a symbolic selector over arms multiplies the cost)
                     for k, arm in enumerate(arms):
                         hs.append(P.Harness("%s_%s_%s_%s_%s_cxx%s" % (sch.ns, msg.name, lv.name, arm[0], mode, std), harness(u, g, arms, N, 0, D), [u], unwind=G + 2,
-                                            cap=ctx.q(150, 900), defines=["VERIF_WHICH=%d" % k], backends=["minisat", "kissat"], extra_flags=["--no-standard-checks"],
+                                            cap=ctx.q(300, 900), defines=["VERIF_WHICH=%d" % k], backends=["minisat", "kissat"], extra_flags=["--no-standard-checks"],
                                             meta={"big_loops": ["ref_walk_%s.%d" % (msg.name, x) for x in range(16)]},
                                             desc="message %s.%s level %s: getter(s) of %s == byte-level reference decode at the position the wire values imply; buffer unchanged" % (sch.ns, msg.name, lv.name, arm[0]),
                                             bounds={"N": N, "G": G, "D": D, "std": "c++" + std, "build": mode, "byte_order": "BE" if sch.be else "LE"}))
@@ -160,7 +160,7 @@ def build(ctx):
                 for j in range(0, len(arms), 6):
                     chunk = arms[j:j + 6]
                     hs.append(P.Harness("%s_%s_%s_%d_%s_cxx%s" % (sch.ns, msg.name, lv.name, j // 6, mode, std), harness(u, g, chunk, N, 0, D), [u], unwind=G + 2,
-                                        cap=ctx.q(150, 900), meta={"big_loops": ["ref_walk_%s.%d" % (msg.name, k) for k in range(16)]},
+                                        cap=ctx.q(300, 900), meta={"big_loops": ["ref_walk_%s.%d" % (msg.name, k) for k in range(16)]},
                                         desc="message %s.%s level %s: getters %s == byte-level reference decode; buffer unchanged" % (sch.ns, msg.name, lv.name, [a[0] for a in chunk]),
                                         bounds={"N": N, "G": G, "D": D, "std": "c++" + std, "build": mode, "byte_order": "BE" if sch.be else "LE"}))
     # extreme data length: the member after a <data> whose length is anywhere in 0..255 (uint8 length type)
@@ -174,7 +174,7 @@ def build(ctx):
         N = g.max_size(0, 255) - 255 + 6
         for a in [x for x in dyn_arms(g, g.levels[0]) if x[0] == "data_db"]:
             hs.append(P.Harness("%s_odd_bigdata_%s_%s_cxx%s" % (sch.ns, a[0], mode, std), harness(u, g, [a], N, 0, 255), [u], unwind=4,
-                                cap=ctx.q(200, 900), backends=["minisat", "kissat"], extra_flags=["--no-standard-checks"],
+                                cap=ctx.q(300, 900), backends=["minisat", "kissat"], extra_flags=["--no-standard-checks"],
                                 meta={"big_loops": ["ref_walk_odd.%d" % x for x in range(16)]},
                                 desc="message %s.odd: getters of the data member that follows a <data> of ANY uint8 length 0..255" % sch.ns,
                                 bounds={"N": N, "G": 1, "D": "0..255", "std": "c++" + std, "build": mode}))
